@@ -13,7 +13,7 @@ namespace {
 
 struct Rec {
   Bytes pkt; int frame48 = 0; opus_uint32 enc_range = 0; bool lost = false; int mode = 0; bool silent_in = false; double in_rms = 0;
-  int lbrr = 0; int fam = 0; bool vad_active = true;   // SILK / hybrid: every SILK frame of the (mid) channel carries the voice-activity flag
+  int lbrr = 0; int fam = 0; int loss_perc = 0; bool vad_active = true;   // SILK / hybrid: every SILK frame of the (mid) channel carries the voice-activity flag
 };
 struct Pol { int fec = 1, piece = 0, slack = 0; };
 
@@ -46,6 +46,7 @@ struct Lossy {
     if (ret <= 0) return;   // (an encoder failure is C02 / C05's subject)
     rc.enc_range = S.enc.final_range(); rc.mode = toc_mode(rc.pkt[0]);
     rc.lbrr = opus_packet_has_lbrr(rc.pkt.data(), (opus_int32)rc.pkt.size());
+    { opus_int32 lp = 0; S.enc.get(OPUS_GET_PACKET_LOSS_PERC_REQUEST, &lp); rc.loss_perc = (int)lp; }
     if (rc.mode != 2) {
       // the SILK layer starts with one VAD flag per 20 ms SILK frame (probability 1/2 each: the leading bits of the first payload byte)
       Framed f = model_parse(rc.pkt.data(), (int)rc.pkt.size(), false);
@@ -243,13 +244,21 @@ struct Lossy {
       // loud, the reconstruction is not near-silence (every flavour; mono streams, isolated losses, same packet duration on both sides)
       if (used_fec && k + 1 < npk && (k == 0 || !log[k - 1].lost) && log[k + 1].frame48 == rc.frame48 && !pr.empty() && pl.size() == pr.size()) {
         int mid = 0, side = 0, nf = opsim_silk_lbrr_flags(log[k + 1].pkt.data(), (int)log[k + 1].pkt.size(), &mid, &side);
+        // (only where the redundant copy is coded at a useful rate: the encoder coarsens the LBRR quantiser by up to 7 gain steps when the
+        //  expected loss is low - at 1 % a steady 3 kHz tone is quantised to an all-zero excitation and the copy is, by design, near-silent;
+        //  from 13 % on the coarsening is at its minimum of 2 steps)
+        if (log[k + 1].loss_perc < 13) nf = -1;
         if (nf > 0 && !(log[k + 1].pkt[0] & 4) && !(rc.pkt[0] & 4) && (rc.pkt[0] & 3) == 0 && (rc.pkt[0] >> 3) == (log[k + 1].pkt[0] >> 3) && k >= 1 && (log[k - 1].pkt[0] >> 3) == (rc.pkt[0] >> 3)) {   // same mode, bandwidth and duration before, at and after the loss
           size_t per = pr.size() / (size_t)nf;
           for (int f = 0; f < nf; f++) if ((mid >> f) & 1) {
             double er = 0, ef = 0;
             for (size_t i = (size_t)f * per; i < (size_t)(f + 1) * per; i++) { er += (double)pr[i] * pr[i]; ef += (double)pl[i] * pl[i]; }
             er = sqrt(er / per); ef = sqrt(ef / per);
-            if (er < 0.03) continue;
+            if (er < 0.03 || rc.in_rms < 0.03) continue;
+            // the level to reach is the quieter of what the loss-free twin plays and what the encoder was given: on decaying or swept material
+            // the regular decode can be several times louder than the input (gain-decrease clamp, resonating synthesis filter) while the
+            // redundant copy, coded afresh, follows the input
+            er = std::min(er, rc.in_rms);
             run.count("fec_frame_level_checked"); if (f > 0 && !((mid >> (f - 1)) & 1)) run.count("fec_frame_level_checked_first_lbrr_frame_not_first");
             long milli = (long)(std::max(0.0, 1.0 - ef / er) * 1000); if (run.stat["max:fec_frame_level_deficit_milli"] < milli) run.stat["max:fec_frame_level_deficit_milli"] = milli;
             if (getenv("OPSIM_CALIB")) fprintf(stderr, "C09FECLVL ratio=%.4f ref=%.4f f=%d nf=%d flags=%d mode=%d fam=%d seed=%llu k=%zu\n", ef / er, er, f, nf, mid, rc.mode, rc.fam, (unsigned long long)cur_seed, k);
